@@ -1,9 +1,20 @@
 #!/bin/sh
-# run_seeded.sh [ids...] : run each stored seeded mutant against its property's check (quick tier); log to /tmp/seeded_results.log
+# run_seeded.sh [dirs...] : run each stored seeded change against its property's check (quick tier), 4 at a time;
+# one line per change in seeded/RESULTS.md
 cd /verif
-for d in ${@:-$(ls seeded)}; do
+mkdir -p /tmp/seeded_out
+list=${@:-$(ls seeded | grep -v RESULTS)}
+echo "$list" | tr ' ' '\n' | xargs -P 4 -I{} sh -c 'd={}; prop=$(echo $d | cut -d- -f1); tools/trymutant.sh /verif/seeded/$d/patch.diff $prop quick > /tmp/seeded_out/$d.txt 2>&1'
+{
+echo "# Seeded changes vs. checks (quick tier, VERIF_SEED=${VERIF_SEED:-1})"
+echo
+echo "| change | property | detected | first lines |"
+echo "|---|---|---|---|"
+for d in $list; do
   prop=$(echo $d | cut -d- -f1)
-  [ -f vf/checks/$(echo $prop | tr A-Z a-z).py ] || { echo "$d: no check for $prop yet"; continue; }
-  echo "== $d"
-  tools/trymutant.sh /verif/seeded/$d/patch.diff $prop quick 2>&1 | grep -v WARN | cut -c1-160 | head -4
+  if grep -q "^VIOLATION" /tmp/seeded_out/$d.txt; then det=yes; elif grep -q "does not apply" /tmp/seeded_out/$d.txt; then det="n/a (patch no longer applies)"; else det=NO; fi
+  first=$(grep -v "^KNOWN" /tmp/seeded_out/$d.txt | head -2 | tr '\n' ' ' | cut -c1-120 | tr '|' '/')
+  echo "| $d | $prop | $det | $first |"
 done
+} > seeded/RESULTS.md
+cat seeded/RESULTS.md
